@@ -432,12 +432,12 @@ func plans() map[string]*propertyPlan {
 		},
 		"C14": {
 			level:       "exploration",
-			rule:        "every sequence of enum/bit members up to the length bound over 3 names x {implicit, 14 boundary values}, driven through NewEnumType/NewBitfield Set/SetNext (stopped at the first error) and, for every 50th sequence, through a module with an enumeration/bits leaf; compared with RFC 7950 9.6.4.2/9.7.4.2 assignment in exact arithmetic; non-trivial = at least two members; sequences are distinct by construction",
+			rule:        "every sequence of enum/bit members up to the length bound over 3 names x {implicit, 14 boundary values}, driven through NewEnumType/NewBitfield Set/SetNext (stopped at the first error) and, for every 50th sequence, through a module with an enumeration/bits leaf; plus explicit values and positions written as literals around 2^31, 2^32, 2^63, 2^64, 2^65, 3*2^64 and 2^128 (both signs, +-9) in a module, after zero or one earlier member and before an optional implicit one - out-of-range literals must be rejected whatever their magnitude; compared with RFC 7950 9.6.4.2/9.7.4.2 assignment in exact arithmetic; non-trivial = at least two members; sequences are distinct by construction",
 			assumptions: []string{"behaviour of Set/SetNext after a call that returned an error is unspecified", "bit positions need not be unique (the property does not ask for it)"},
 			minObserved: map[string]int64{"sequences": 100000, "schema_cases": 1000},
-			nontrivial:  "nontrivial", evaluations: "sequences", exhaustive: true,
-			quick:    []spec{{family: "enum", shards: 45, params: map[string]string{"maxlen": "3"}, cpuS: 600, asKB: 8 << 20, wallS: 900}},
-			thorough: []spec{{family: "enum", shards: 45, params: map[string]string{"maxlen": "4", "schema_every": "200"}, cpuS: 3600, asKB: 8 << 20, wallS: 5400}},
+			nontrivial:  "nontrivial", evaluations: "sequences,literal_cases", exhaustive: true,
+			quick:    []spec{{family: "enum", shards: 45, params: map[string]string{"maxlen": "3"}, cpuS: 600, asKB: 8 << 20, wallS: 900}, {family: "literal", shards: 8, cpuS: 600, asKB: 8 << 20, wallS: 900}},
+			thorough: []spec{{family: "enum", shards: 45, params: map[string]string{"maxlen": "4", "schema_every": "200"}, cpuS: 3600, asKB: 8 << 20, wallS: 5400}, {family: "literal", shards: 8, cpuS: 600, asKB: 8 << 20, wallS: 900}},
 		},
 		"C15": {
 			level:       "exploration",
